@@ -102,8 +102,58 @@ class RGen:
                 return dict(k="Generic", t=t)
         return self.dense_general(n, cplx)
 
+    # ---- widely graded spectra (kernel-matrix-plus-jitter territory): condition numbers 1e3 .. 1e10, determinants far below 1
+    def _unitary(self, n, cplx):
+        rs = np.random.RandomState(self.r.getrandbits(31))
+        M = rs.standard_normal((n, n)) + (1j * rs.standard_normal((n, n)) if cplx else 0)
+        return np.linalg.qr(M)[0], rs
+
+    def dense_graded(self, n, cplx, cond, psd=True, f32=False):
+        r = self.r
+        Q, rs = self._unitary(n, cplx)
+        lam = np.exp(rs.uniform(-math.log(cond), 0, n))
+        lam[0] = 1.0
+        if n > 1:
+            lam[1] = 1.0 / cond
+        lam = lam * 10.0 ** r.randint(-3, 2)
+        if not psd:   # normal, not Hermitian: eigenvalues with signs (real dtype) or arbitrary phases (complex dtype)
+            lam = lam * (np.exp(1j * rs.uniform(0.3, 2.8, n) * rs.choice([-1, 1], n)) if cplx else rs.choice([-1.0, 1.0], n))
+        A = (Q * lam) @ Q.conj().T
+        if psd:
+            A = (A + A.conj().T) / 2
+        dt = ("complex64" if cplx else "float32") if f32 else ("complex128" if cplx else "float64")
+        if f32:
+            A = A.astype(np.complex64).astype(np.complex128)
+        a = [[[float(A[i, j].real), float(A[i, j].imag) if cplx else 0.0] for j in range(n)] for i in range(n)]
+        return dict(k="Dense", dt=dt, a=a, psd=bool(psd), graded=float(cond))
+
+    def lazy_graded(self, n, cplx, cond, psd=True):
+        """the same regime through lazy operators that reach the base case: a Sum of two dense halves, or G^H G + jitter * I"""
+        r = self.r
+        if n >= 2 and psd and r.random() < 0.5:
+            k = r.randint(1, n - 1)
+            rs = np.random.RandomState(r.getrandbits(31))
+            G = rs.standard_normal((k, n)) + (1j * rs.standard_normal((k, n)) if cplx else 0)
+            G = G / np.linalg.norm(G, 2) * 10.0 ** (r.randint(-2, 2) / 2)
+            jitter = float(np.linalg.norm(G, 2) ** 2 / cond)
+            g = [[[float(G[i, j].real), float(G[i, j].imag) if cplx else 0.0] for j in range(n)] for i in range(k)]
+            return dict(k="Lazy", form="gram", dt="complex128" if cplx else "float64", g=g, jitter=jitter, psd=True, graded=float(cond))
+        base = self.dense_graded(n, cplx, cond, psd)
+        A = np_arr(base["a"], "complex128")
+        rs = np.random.RandomState(r.getrandbits(31))
+        S = rs.standard_normal((n, n)) + (1j * rs.standard_normal((n, n)) if cplx else 0)
+        S = (S + S.conj().T) / 2
+        S = S / max(np.linalg.norm(S, 2), 1e-300) * np.linalg.norm(A, 2) * 0.5
+        rows = lambda M: [[[float(M[i, j].real), float(M[i, j].imag) if cplx else 0.0] for j in range(n)] for i in range(n)]
+        return dict(k="Lazy", form="sum", dt=base["dt"], parts=[rows(A / 2 + S), rows(A / 2 - S)], psd=bool(psd), graded=float(cond))
+
     def base(self, n, cplx):
         r = self.r
+        if isinstance(self.krylov, dict):   # graded stream: {"cond": .., "psd": .., "lazy": .., "f32": ..}
+            g = self.krylov
+            if g.get("lazy") and r.random() < 0.5:
+                return self.lazy_graded(n, cplx, g["cond"], g["psd"])
+            return self.dense_graded(n, cplx, g["cond"], g["psd"], g.get("f32", False))
         if self.krylov == "general":
             return self.dense_general(n, cplx) if r.random() < 0.6 else self.dense_psd(n, cplx)
         if self.krylov:
@@ -195,6 +245,8 @@ def rsize(t):
         return len(t["a"])
     if k == "Generic":
         return T.shape(t["t"])[0]
+    if k == "Lazy":
+        return len(t["g"][0]) if t["form"] == "gram" else len(t["parts"][0])
     if k == "Diag":
         return len(t["d"])
     if k in ("Ident", "Scal"):
@@ -212,7 +264,7 @@ def rsize(t):
 
 def rkinds(t, acc=None):
     acc = acc if acc is not None else []
-    acc.append(t["k"] + ("+psd" if t.get("psd") else ""))
+    acc.append(t["k"] + (":" + t["form"] if t["k"] == "Lazy" else "") + ("+psd" if t.get("psd") else "") + ("+graded" if t.get("graded") else ""))
     if t["k"] == "Generic":
         acc.append("Generic:" + t["t"]["k"])
     for x in t.get("ms", []):
@@ -256,6 +308,14 @@ def build(t):
         return cola.PSD(A) if t["psd"] else A
     if k == "Generic":
         return T.build(t["t"])
+    if k == "Lazy":
+        if t["form"] == "gram":
+            G = ops.Dense(np_arr(t["g"], t["dt"]))
+            jit = t["jitter"] if t["dt"] in T.REAL else complex(t["jitter"])
+            A = G.H @ G + jit * ops.I_like(ops.Dense(np.eye(len(t["g"][0]), dtype=getattr(np, t["dt"]))))
+        else:
+            A = ops.Dense(np_arr(t["parts"][0], t["dt"])) + ops.Dense(np_arr(t["parts"][1], t["dt"]))
+        return cola.PSD(A) if t["psd"] else A
     if k == "Tri":
         return ops.Triangular(np_arr(t["a"], t["dt"]), lower=t["lower"])
     if k == "Diag":
@@ -310,6 +370,11 @@ def dense(t):
         return np_arr(t["a"], "complex128")
     if k == "Generic":
         return T.dense(t["t"])
+    if k == "Lazy":
+        if t["form"] == "gram":
+            G = np_arr(t["g"], "complex128")
+            return G.conj().T @ G + t["jitter"] * np.eye(G.shape[1], dtype=C)
+        return np_arr(t["parts"][0], "complex128") + np_arr(t["parts"][1], "complex128")
     if k == "Diag":
         return np.diag(np_vec(t["d"], "complex128"))
     if k == "Ident":
@@ -388,7 +453,57 @@ def base_dec(A, alg, need):
         import cola.linalg as cl
         t = cl.trace(cl.log(A, alg["obj"]), alg["trace_obj"])
         dec.update(kt=complex(t), dense=D, uneven=uneven_krylov(D), branch_cut=on_branch_cut(D))
+        try:
+            dec["unary"] = unary_data(A, alg)
+        except Exception as e:   # the oracle calls themselves failed: no unary-model comparison for this node
+            dec["unary"] = dict(error=type(e).__name__ + ": " + str(e)[:100])
     return dec
+
+
+def unary_data(A, alg):
+    """oracle data of LanczosUnary._matmat / ArnoldiUnary._matmat applied to the identity (what trace(log(A, alg), Exact) reads):
+    cola's own Krylov factorisation of every unit vector (public functions lanczos / arnoldi), LAPACK eigh / eig / solve of the
+    projected matrices and numpy's log of the Ritz values.  The masking rule and the contraction are the MODEL (C07_Unary.v)."""
+    from cola.linalg.decompositions.lanczos import lanczos
+    from cola.linalg.decompositions.arnoldi import arnoldi
+    xnp, n = A.xnp, A.shape[0]
+    V = np.eye(n, dtype=A.dtype)
+    kw = dict(alg["obj"].__dict__)
+    kw.pop("start_vector", None)
+    norms = np.linalg.norm(V, axis=0)
+    if alg["name"] == "lanczos":
+        Q, Tm, _ = lanczos(A, V, **kw)
+        w, P = np.linalg.eigh(xnp.vmap(Tm.__class__.to_dense)(Tm))
+        Q = xnp.vmap(Q.__class__.to_dense)(Q)
+        c = np.conj(P)[:, 0, :] * norms[:, None]
+    else:
+        Q, H, _ = arnoldi(A=A, start_vector=V, **kw)
+        Q, H = Q.to_dense()[:, :, :-1], H.to_dense()[:, :-1]
+        w, P = np.linalg.eig(H)
+        e0 = np.zeros((P.shape[1], n), dtype=P.dtype)
+        e0[0] = 1
+        c = np.linalg.solve(P, e0.T[..., None]).squeeze(-1) * norms[:, None]
+        Q = Q.astype(P.dtype)
+    eps = float(np.finfo(A.dtype).eps)
+    thr = 10 * eps * np.max(np.abs(w), axis=1, keepdims=True)
+    with np.errstate(all="ignore"):
+        fw = np.log(w)
+    keep = np.abs(w) > thr
+    near_tie = bool(np.any(np.abs(np.abs(w) - thr) <= 1e-6 * thr))
+    nonfinite = bool(np.any(keep & ~np.isfinite(fw))) or not (np.all(np.isfinite(Q)) and np.all(np.isfinite(P)) and np.all(np.isfinite(c)) and np.all(np.isfinite(w)))
+    fw = np.where(np.isfinite(fw), fw, 0)
+    return dict(Q=Q, P=P, w=w, fw=fw, c=c, eps=eps, near_tie=near_tie, nonfinite=nonfinite, masked=int((~keep).sum()),
+                below_tol=int((keep & (np.abs(w) <= kw.get("tol", 0) * np.max(np.abs(w), axis=1, keepdims=True))).sum()))
+
+
+def coq_ucase(u, t, tol):
+    from fractions import Fraction
+    e10 = Fraction(10) * Fraction(u["eps"])
+    cols = []
+    for i in range(u["Q"].shape[0]):
+        cols.append(f"(mkucol {qrows(u['Q'][i])} {qrows(u['P'][i])} [{';'.join(qi_lit(v) for v in u['w'][i])}] "
+                    f"[{';'.join(qi_lit(v) for v in u['fw'][i])}] [{';'.join(qi_lit(v) for v in u['c'][i])}])")
+    return f"(mkucase (qc ({e10.numerator}) {e10.denominator}) [{';'.join(cols)}] {qi_lit(t)} {qc_lit(tol)})"
 
 
 def on_branch_cut(D):
